@@ -5,5 +5,6 @@ CONSTANTS
   LoopActions = 2
   UseRLock = TRUE
   UseSendLock = TRUE
+  TailUnderLock = TRUE
 INVARIANTS C02_Consecutive C02_StoreNext C02_WireOrder C02_PersistBeforeWire C02_NoLiveInsideReplay
 CHECK_DEADLOCK FALSE
